@@ -1099,10 +1099,13 @@ class HelicityDecay(AmpDecay):
 
     def get_barrier_factor(self, mass, q, q0, d):
         ls = self.get_l_list()
+        # the minimal l of the decay, not of the currently selected couplings
+        # (set_ls selects a part of them, e.g. one at a time in opt_int.split_gls)
+        min_l = min(l for l, s in self.get_total_ls_list())
         ret = []
         for l in ls:
             if self.force_min_l:
-                l = min(ls)
+                l = min_l
             if self.has_bprime:
                 tmp = q**l * tf.cast(Bprime(l, q, q0, d), dtype=q.dtype)
             else:
@@ -1115,12 +1118,14 @@ class HelicityDecay(AmpDecay):
 
     def get_barrier_factor2(self, mass, q2, q02, d):
         ls = self.get_l_list()
+        # the minimal l of the decay, not of the currently selected couplings
+        min_l = min(l for l, s in self.get_total_ls_list())
         if self.no_q0:
             q02 = tf.ones_like(q02)
         ret = []
         for l in ls:
             if self.force_min_l:
-                l = min(ls)
+                l = min_l
             if self.has_bprime:
                 bp = Bprime_q2(l, q2, q02, d)
                 if self.has_ql:
